@@ -13,3 +13,11 @@ func replayOther(t *testing.T, prop, kind string, raw []byte) bool {
 	f(t, raw)
 	return true
 }
+
+func init() {
+	// a native-fuzzing corpus entry is replayed by writing it under testdata/fuzz/<Target>/ and
+	// running that target as a plain test
+	otherReplays["fuzz-input"] = func(t *testing.T, raw []byte) {
+		t.Skip("replayed by the driver: see bin/check (fuzz-input)")
+	}
+}
